@@ -1,7 +1,7 @@
 """Rules added after confronting the checker with independently written bug patches (DESIGN §8.3)."""
 import re
 
-from core import op_local, op_const_bits, place_fields, strip_crate, alias_paths, place_path, mem_loc, rvalue_operands
+from core import op_local, op_const_bits, place_fields, strip_crate, alias_paths, place_path, mem_loc, rvalue_operands, ok_bool_edges
 from engine import rule
 from flow import flow_of
 from vocab import api_mut, open_bodies, where
@@ -10,7 +10,7 @@ RR = 'rolling::directory::RollingReader'
 
 
 def success_edges_of_reads(ctx, b):
-    """True edges of switches on the bool payload of `?` applied to a call that may READ and returns
+    """True edges of switches on the bool payload of a checked (`?` / match) call that may READ and returns
     io::Result<bool> (a block read that succeeded)."""
     out = []
     for cs in b.calls:
@@ -19,20 +19,8 @@ def success_edges_of_reads(ctx, b):
             continue
         if not (ctx.E.call_may(cs, 'READ')):
             continue
-        known = alias_paths(b, dl)
-        for c2 in b.calls:
-            if c2.name.endswith('::branch') and c2.arg_local(0) in known:
-                k2 = alias_paths(b, c2.dest_local())
-                for bj, blk in enumerate(b.blocks):
-                    if not b.live[bj] or blk['term']['k'] != 'switch':
-                        continue
-                    c = b.switch_cond(bj)
-                    if c and c['kind'] == 'bool':
-                        for o in c['origin']:
-                            if o[0] == 'place' and place_path(k2, o[2]) == [(('v', 'Continue'), ('f', '0'))]:
-                                e = b.bool_edges(bj)
-                                if e:
-                                    out.append((cs, e[0], e[1]))
+        for (te, fe) in ok_bool_edges(b, dl):
+            out.append((cs, te, fe))
     return out
 
 
